@@ -258,3 +258,18 @@ reg('C11',
     'keys/titles are counted as out of domain; explicit hydrogens on stereocentres are excluded (property text). Cis/trans from 2D needs calc_cis_trans=True, which the check passes.',
     'bounded exhaustive enumeration of records x formats x field values x corruption positions on the real implementation',
     'DESIGN.md s5 C11')
+
+reg('C03',
+    'Strings are enumerated exhaustively from (1) the bracket-atom product isotope x symbol x chirality x hydrogen count x charge spelling x map '
+    '(244 608 one-atom strings incl. malformed members), (2) all token strings of length <=4 (thorough 5) over a 37-token alphabet (atoms, bracket '
+    'atoms, every bond symbol, directional bonds, dots, branches, one- and two-digit closures, lone % and 0, reaction arrow, CXSMILES radical and '
+    'fragment blocks, SMARTS-only characters), (3) 190 curated strings per listed feature and its malformed neighbours, (4) the 4200 corpus strings '
+    'and every single deletion / insertion / substitution of the shortest ones. For each string an independent recursive-descent reader decides '
+    'membership and builds the reference graph; the library must return an object exactly for members, equal atom by atom in parse order (element, '
+    'isotope, charge, map number, CXSMILES radicals, bond list with the implicit single/aromatic choice and ring-closure bond agreement, reaction roles '
+    'and fragment grouping), and must raise a ValueError-family error for non-members - any other exception type is a violation. Where RDKit parses '
+    'the string it is a third reader: same constitution and configuration, per-atom hydrogens and radicals.',
+    'Trusted: vf/oracle/smiles_ref.py (OpenSMILES reading of the listed sub-language) and RDKit. Out of domain: isotopes not tabulated for the element '
+    '(table data), order of a directional bond between two aromatic atoms. Three deliberate tolerances/repairs of the reader are known findings keyed by call site.',
+    'bounded exhaustive enumeration of strings (token sequences, field products, single edits) on the real reader vs an independent reader',
+    'DESIGN.md s5 C03')
